@@ -343,7 +343,16 @@ fn judge(report: &mut Report, s: &Scenario, base: &Trace, plan: &BTreeMap<u64, F
             CallResult::Ok { diverging, .. } => Some(*diverging),
             _ => None,
         }).collect();
-        if after.len() >= 8 && after.iter().all(|d| *d) {
+        // (a chain whose short warmup left it with an unusable step size diverges on every draw without any fault: the
+        // fault-free run of the scenario must be mostly free of divergences over the same calls)
+        let base_after: Vec<bool> = base.calls.iter().skip(fc.max(1) + 1).filter_map(|c| match &c.result {
+            CallResult::Ok { diverging, .. } => Some(*diverging),
+            _ => None,
+        }).collect();
+        let base_clean = base_after.len() >= 8 && base_after.iter().filter(|d| **d).count() * 4 <= base_after.len();
+        // (MCLMC presets are outside this property's quantifier; with a fixed step and a few warmup draws their
+        // adaptation may end in a state where every draw diverges, after one early fault as well as without one)
+        if after.len() >= 8 && after.iter().all(|d| *d) && base_clean && s.preset.is_nuts() {
             let part = if fc == 0 { "after_set_position" } else { "after_draw" };
             report.violation(
                 sig(&format!("chain_stuck_divergent_{part}")),
